@@ -5,6 +5,8 @@ sequences rests on the C05 invariant development.
 -/
 import ProfiVerif.Model.Station
 import ProfiVerif.Lemmas.StationTrace
+import ProfiVerif.Lemmas.PassCount
+import ProfiVerif.Lemmas.PassCountNs
 
 namespace PV.C11
 open PV
@@ -432,5 +434,258 @@ example : ¬ SlotExpired supervisingStation 1000 [0xDC] := activity_blocks_expir
 example := handover_trace demoParams [[.decline]] (by decide) (by decide)
     (by intro s hs a ha h pdu he; simp at hs; subst hs; simp at ha; subst ha; cases he)
     [.setOnline, .poll 100 false [0xDC, 7, 3], .poll 100000 false []] (.poll 100500 false [])
+
+/-! ## Counting form of pass supervision ("repeats the token at most twice, then removes NS")
+
+Helper lemmas: `Lemmas/PassCount.lean`.  `sent st` is the STAGE of a pass read off the FDL state: the
+number of transmissions of the token to the current successor in the pass under supervision
+(`CheckTokenPass(att)` ↦ 1/2/3; `PassToken(false, second/third)` — slot expired, repetition waits for
+the synchronisation pause — ↦ 1/2; every other state ↦ 0).  `SameRun w ins txs w'` is a run of
+consecutive polls `ins` from `w` to `w'` each of which starts inside a pass (stage ≥ 1) and does not
+end it (stage does not drop); `txs` lists everything handed to the PHY in the run, each with the
+successor registered at that moment.
+
+Full statement wanted (for reference; proved below in the pieces `pass_count_step`, `pass_count_run`,
+`removal_needs_three`, `pass_counting`, with two qualifications stated at `pass_counting`):
+in a maximal run of polls supervising one pass, entered by the poll that transmitted the token to NS
+and went to `CheckTokenPass(first)`: (1) the token to that NS is transmitted at most three times, each
+repetition the identical telegram, attempts advancing first → second → third; (2) NS is removed only by
+the poll following the third transmission and a silent slot; (3) registered bus activity in the run
+excludes a removal in the run — (3) is FALSE of the model (and of the code) in this form, see
+`activity_only_delays_removal`; its true forms are `activity_blocks_expiry` (per poll) and the `heard`
+exit of `pass_counting` (a complete telegram heard ends the pass without removal). -/
+
+/-- **`pass_count_step`** (one whole poll from ANY state with a pass under supervision, any bytes, any
+time): the counter invariant step.  Either nothing is transmitted and stage and ring view are
+unchanged (`wait`); or the stage was < 3 and the token telegram TS → NS is transmitted once more and
+the stage grows by exactly one — or the station finds itself alone and keeps the token — the ring view
+changing only by the record of the own pass (`retry`); or a complete telegram was heard before the slot
+time expired: nothing transmitted, pass over, ring view changed by witnessed tokens only (`heard`); or
+the start state is `CheckTokenPass(third)` — stage 3 — with the slot time expired in silence and
+exactly NS is removed (`removed`). -/
+theorem pass_count_step (s : Station) (apps : Apps) (now : Int) (phy : Bool) (rx : Bytes) (c' : Ctx)
+    (h : s.poll apps now phy rx = .ok c') (hin : sent s.st ≠ 0) : PassStep s now rx c' :=
+  pass_step s apps now phy rx c' h hin
+
+/-- The stage is the attempt number while the bus is watched: the ghost count of transmissions is tied
+to the `Attempt` of the state. -/
+theorem stage_is_attempt (att : Attempt) :
+    sent (.checkTokenPass att) = att.ord ∧ (att.ord = 1 ↔ att = .first) ∧ (att.ord = 2 ↔ att = .second) ∧
+    (att.ord = 3 ↔ att = .third) := by
+  cases att <;> simp [sent, Attempt.ord]
+
+/-- **`pass_count_run`** (claim (1), any run of polls inside one pass, any times, any bytes, any
+applications).  Start in `CheckTokenPass(first)` — the first transmission is out.  Then the run
+contains at most TWO further transmissions; each is exactly the token telegram from TS to the successor
+registered at that moment (nothing else is ever handed to the PHY in the run); after `k` of them the
+stage is `1 + k` — so the attempts advance strictly first → second → third, one step per
+transmission; the parameters are unchanged and the ring view has changed only by recording the own
+passes (no removal inside the run). -/
+theorem pass_count_run {w w' : World} {ins : List PollIn} {txs : List (Nat × Bytes)}
+    (h : SameRun w ins txs w') (hst : w.s.st = .checkTokenPass .first) :
+    txs.length ≤ 2 ∧ sent w'.s.st = 1 + txs.length ∧
+    (∀ e ∈ txs, e.2 = tokenTo w.s.p.address e.1) ∧
+    (∀ ns, (∀ e ∈ txs, e.1 = ns) → ∀ e ∈ txs, e.2 = [SD4, UInt8.ofNat ns, UInt8.ofNat w.s.p.address]) ∧
+    w'.s.p = w.s.p ∧ OwnEvo w.s.p.address w.s.ring w'.s.ring := by
+  obtain ⟨h1, h2, h3, h4⟩ := passCount_run h
+  have hle := passCount_le h
+  rw [hst] at h1 hle
+  refine ⟨by simp [sent, Attempt.ord] at hle; omega, by simpa [sent, Attempt.ord] using h1, h3, ?_, h2, h4⟩
+  intro ns hns e he
+  rw [h3 e he, hns e he]; rfl
+
+/-- **`removal_needs_three`** (claim (2)).  After a run inside one pass that started in
+`CheckTokenPass(first)`, consider ANY next poll.  Either the ring view evolves without any
+`remove_station` (`RingEvo`: witnessed passes only), or — the removal — the run contained exactly two
+repetitions, i.e. the token has been transmitted to this successor exactly THREE times (the entering
+transmission and the two in `txs`, all token telegrams TS → NS), the state is `CheckTokenPass(third)`,
+no new byte has become pending and the last registered bus activity lies more than a slot time back,
+and exactly NS is removed.  A successor is never removed after fewer than three transmissions. -/
+theorem removal_needs_three {w w1 w2 : World} {ins : List PollIn} {txs : List (Nat × Bytes)} {i : PollIn}
+    {tx : Option Bytes} (hrun : SameRun w ins txs w1) (hst : w.s.st = .checkTokenPass .first)
+    (hp : w1.pollTx i = some (w2, tx)) :
+    RingEvo w1.s.p.address w1.s.ring w2.s.ring ∨
+    (txs.length = 2 ∧ (∀ e ∈ txs, e.2 = tokenTo w.s.p.address e.1) ∧ w1.s.st = .checkTokenPass .third ∧
+      ((w1.rx ++ i.arrived).length ≤ w1.s.pendingBytes ∧
+        ∃ l, w1.s.lastBusActivity = some l ∧ l + (w1.s.p.slotTime : Nat) < i.now) ∧
+      ∃ r0, w1.s.ring.removeStation w1.s.ring.ns = some r0 ∧
+        (w2.s.ring = r0 ∨ w2.s.ring = r0.witness w1.s.p.address r0.ns)) := by
+  obtain ⟨c, hc, hs, rfl⟩ := pollTx_inv hp
+  rw [hs]
+  rcases never_remove_heard _ _ _ _ _ _ hc with hr | ⟨-, h3, hsil, hrm⟩
+  · exact .inl hr
+  · obtain ⟨-, h1, h2, -⟩ := pass_count_run hrun hst
+    rw [h3] at h1
+    exact .inr ⟨by simp [sent, Attempt.ord] at h1; omega, h2, h3, hsil, hrm⟩
+
+/-- **`pass_counting`** (whole histories).  From ANY state satisfying the station invariant that has
+just entered `CheckTokenPass(first)`, and for EVERY list of further polls (any times, any arriving
+bytes, any scripted applications): no poll panics, and the list splits into the maximal run `pre`
+supervising this pass and a rest `post` such that
+(1) in `pre` the token is repeated at most twice, nothing but the token telegram TS → NS is
+    transmitted, and the stage is `1 +` the number of repetitions;
+(2)/(3) `post` is empty (the history ends inside the pass), or its first poll ends the pass in one of
+    exactly three ways: a complete telegram was heard before the slot time expired — nothing
+    transmitted, ring view changed by witnessed tokens only, NO removal; or the station found itself
+    alone after a repetition and keeps the token — no removal; or exactly two repetitions have been
+    made (three transmissions in all), the station is in `CheckTokenPass(third)`, the slot time has
+    expired in silence, and exactly NS is removed.
+Qualifications: the entering transmission itself is represented by the start state (stage 1), not by
+a log entry; that recording the own pass leaves NS unchanged (so that all repetitions carry the same
+DA) is not derived here — each entry of `txs` carries the NS registered when it was sent. -/
+theorem pass_counting (w : World) (hi : Inv w.s w.apps) (hst : w.s.st = .checkTokenPass .first) (ins : List PollIn) :
+    ∃ pre post txs w1, ins = pre ++ post ∧ SameRun w pre txs w1 ∧
+      txs.length ≤ 2 ∧ sent w1.s.st = 1 + txs.length ∧ (∀ e ∈ txs, e.2 = tokenTo w.s.p.address e.1) ∧
+      OwnEvo w.s.p.address w.s.ring w1.s.ring ∧
+      (post = [] ∨ ∃ i rest w2 tx, post = i :: rest ∧ w1.pollTx i = some (w2, tx) ∧
+        PassEnd w1.s i.now (w1.rx ++ i.arrived) w2.s tx ∧
+        (w1.s.st = .checkTokenPass .third → txs.length = 2)) := by
+  obtain ⟨pre, post, txs, w1, e, hrun, -, hpost⟩ := sameRun_maximal ins w hi
+  obtain ⟨h1, h2, h3, -, -, h6⟩ := pass_count_run hrun hst
+  refine ⟨pre, post, txs, w1, e, hrun, h1, h2, h3, h6, ?_⟩
+  rcases hpost with hp | hp | ⟨i, rest, w2, tx, e2, hp, -, hdrop⟩
+  · exact .inl hp
+  · omega
+  · refine .inr ⟨i, rest, w2, tx, e2, hp, pass_end hp hdrop, ?_⟩
+    intro h3'
+    rw [h3'] at h2
+    simp [sent, Attempt.ord] at h2; omega
+
+/-- In `pass_counting` the removal exit (`PassEnd.removed`) requires `CheckTokenPass(third)`, hence
+exactly two repetitions: spelled out. -/
+theorem removed_after_three {w w1 : World} {ins : List PollIn} {txs : List (Nat × Bytes)}
+    (hrun : SameRun w ins txs w1) (hst : w.s.st = .checkTokenPass .first)
+    {now : Int} {rx : Bytes} {s' : Station} {tx : Option Bytes} (he : PassEnd w1.s now rx s' tx) :
+    (∃ r0, w1.s.ring.removeStation w1.s.ring.ns = some r0 ∧ txs.length = 2 ∧ SlotExpired w1.s now rx ∧
+        (s'.ring = r0 ∨ s'.ring = r0.witness w1.s.p.address r0.ns)) ∨
+    (txs.length ≤ 2 ∧ ((∃ rx' calls ret, receiveAll rx = .done rx' calls ret ∧ calls ≠ [] ∧
+        HeardEvo calls w1.s.ring s'.ring) ∨ s'.ring = w1.s.ring.witness w1.s.p.address w1.s.ring.ns)) := by
+  obtain ⟨h1, h2, -⟩ := pass_count_run hrun hst
+  rcases he with ⟨-, -, -, hr⟩ | ⟨-, -, hr, -⟩ | ⟨h3, hex, r0, hr0, hr⟩
+  · exact .inr ⟨h1, .inl hr⟩
+  · exact .inr ⟨h1, .inr hr⟩
+  · rw [h3] at h2
+    refine .inl ⟨r0, hr0, by simp [sent, Attempt.ord] at h2; omega, hex, ?_⟩
+    rcases hr with ⟨-, hr, -⟩ | ⟨hr, -⟩
+    · exact .inl hr
+    · exact .inr hr
+
+/-! ### Concrete executable witnesses -/
+
+/-- Stage, transmitted bytes, registered NS and "is 9 still in the LAS" after each poll of a list. -/
+def stageTrace (w : World) : List PollIn → List (Nat × Option Bytes × Nat × Bool)
+  | [] => []
+  | i :: rest => match w.pollTx i with
+    | some (w1, tx) => (sent w1.s.st, tx, w1.s.ring.ns, w1.s.ring.isActive 9) :: stageTrace w1 rest
+    | none => []
+
+/-- TS 7 in a ring 3 → 7 → 9 (LAS valid), about to pass the token for the first time. -/
+def passRing3 : TokenRing := (({ (TokenRing.new 7) with las := .valid }).witness 9 3).witness 3 7
+
+def passDemo : World :=
+  { s := { demo.s with ring := passRing3, st := .passToken false .first, lastBusActivity := some 0 }, apps := [], rx := [] }
+
+set_option maxRecDepth 100000 in
+/-- Silent successor: the token `DC 09 07` goes out exactly three times (stages 1, 2, 3), and only the
+poll after the third silent slot removes 9 from the LAS and passes to the next station, 3. -/
+example : stageTrace passDemo [⟨1000, false, []⟩, ⟨1100, false, []⟩, ⟨1500, false, []⟩, ⟨1600, false, []⟩,
+      ⟨2000, false, []⟩, ⟨2500, false, []⟩] =
+    [(1, some [0xDC, 9, 7], 9, true), (1, none, 9, true), (2, some [0xDC, 9, 7], 9, true), (2, none, 9, true),
+     (3, some [0xDC, 9, 7], 9, true), (1, some [0xDC, 3, 7], 3, false)] := by rfl
+
+set_option maxRecDepth 100000 in
+/-- **`activity_only_delays_removal`** — claim (3) in the form "if bus activity is registered during
+the run, no removal happens in that run" is FALSE of the model (as of `active.rs`): a stray byte `55`
+registered at t = 1600 restarts the slot timer (the poll at 2000 does not expire), but it is not a
+telegram; the supervision goes on, the third transmission happens at 2100 and 9 is removed at 3000 —
+still after exactly three transmissions.  What does hold: the poll that registers activity does not
+expire (`activity_blocks_expiry`), and a complete telegram heard ends the pass without removal. -/
+theorem activity_only_delays_removal :
+    stageTrace passDemo [⟨1000, false, []⟩, ⟨1100, false, []⟩, ⟨1500, false, []⟩, ⟨1600, false, [0x55]⟩,
+      ⟨2000, false, []⟩, ⟨2100, false, []⟩, ⟨2500, false, []⟩, ⟨3000, false, []⟩] =
+    [(1, some [0xDC, 9, 7], 9, true), (1, none, 9, true), (2, some [0xDC, 9, 7], 9, true), (2, none, 9, true),
+     (2, none, 9, true), (3, some [0xDC, 9, 7], 9, true), (3, none, 9, true), (1, some [0xDC, 3, 7], 3, false)] := by rfl
+
+/-- A complete telegram heard (token 9 → 11) ends the pass after one transmission: no repetition, 9
+stays in the LAS. -/
+example : stageTrace passDemo [⟨1000, false, []⟩, ⟨1100, false, [0xDC, 11, 9]⟩, ⟨1500, false, []⟩] =
+    [(1, some [0xDC, 9, 7], 9, true), (0, none, 9, true), (0, none, 9, true)] := by rfl
+
+/-- Non-vacuity of `pass_counting` / `pass_count_run` / `removal_needs_three`: a state satisfying the
+station invariant that has just entered `CheckTokenPass(first)` (the state `passDemo` is in after its
+first poll, up to the time-stamps). -/
+def checkDemo : World :=
+  { s := { demo.s with ring := passRing3, st := .checkTokenPass .first, lastBusActivity := some 1066 }, apps := [], rx := [] }
+
+theorem checkDemo_inv : Inv checkDemo.s checkDemo.apps where
+  addr := by decide
+  hsa := by decide
+  ring := ⟨by decide, by decide⟩
+  off := fun h => absurd h (by decide)
+  gap := fun cur h => by cases h; decide
+  await1 := fun a h => by cases h
+  await2 := fun a h => by cases h
+  app := fun h => absurd h (by decide)
+  appWait := fun a d h => by cases h
+  scripts := fun s hs => by cases hs
+  noPassive := fun h => by cases h
+
+example := pass_counting checkDemo checkDemo_inv rfl
+  [⟨1100, false, []⟩, ⟨1500, false, []⟩, ⟨1600, false, []⟩, ⟨2000, false, []⟩, ⟨2500, false, []⟩]
+
+set_option maxRecDepth 100000 in
+/-- … and from it the silent history makes exactly the two repetitions and then removes 9. -/
+example : stageTrace checkDemo [⟨1100, false, []⟩, ⟨1500, false, []⟩, ⟨1600, false, []⟩, ⟨2000, false, []⟩,
+      ⟨2500, false, []⟩] =
+    [(1, none, 9, true), (2, some [0xDC, 9, 7], 9, true), (2, none, 9, true),
+     (3, some [0xDC, 9, 7], 9, true), (1, some [0xDC, 3, 7], 3, false)] := by rfl
+
+/-- **`repetitions_identical`** (the "identical telegram" part of claim (1)).  If the ring view at the
+start of the run is coherent — NS is the successor its LAS dictates (`NsCoherent`; true of every ring
+view that came out of `update_next_previous`) and `ring.ts = TS` — then recording the own pass never
+moves NS, so in a run inside one pass that starts in `CheckTokenPass(first)` EVERY transmission is the
+same three bytes `SD4, NS, TS` with NS the successor registered at the start, and NS is still the
+registered successor at the end of the run. -/
+theorem repetitions_identical {w w' : World} {ins : List PollIn} {txs : List (Nat × Bytes)}
+    (h : SameRun w ins txs w') (hst : w.s.st = .checkTokenPass .first)
+    (hts : w.s.ring.ts = w.s.p.address) (hlt : w.s.p.address < 128) (hc : NsCoherent w.s.ring) :
+    txs.length ≤ 2 ∧
+    (∀ e ∈ txs, e = (w.s.ring.ns, [SD4, UInt8.ofNat w.s.ring.ns, UInt8.ofNat w.s.p.address])) ∧
+    w'.s.ring.ns = w.s.ring.ns ∧ NsCoherent w'.s.ring := by
+  obtain ⟨h1, -, h3, -⟩ := pass_count_run h hst
+  obtain ⟨k1, k2, k3, -⟩ := sameRun_ns h hts hlt hc
+  refine ⟨h1, ?_, k2, k3⟩
+  intro e he
+  have e1 := k1 e he
+  have e2 := h3 e he
+  obtain ⟨n, b⟩ := e
+  simp only at e1 e2
+  subst e1; subst e2; rfl
+
+set_option maxRecDepth 100000 in
+/-- Non-vacuity: the ring view of `checkDemo` is coherent. -/
+theorem checkDemo_coherent : checkDemo.s.ring.ts = checkDemo.s.p.address ∧ checkDemo.s.p.address < 128 ∧
+    NsCoherent checkDemo.s.ring := ⟨by decide, by decide, by unfold NsCoherent; decide⟩
+
+/-- **`first_transmission_enters`** — how a pass is entered from `PassToken` (after a GAP poll, after
+the removal of the previous successor, or while the synchronisation pause was awaited): a poll that
+starts in `PassToken(g, att)` and ends in a supervising state has transmitted exactly the token
+telegram TS → NS in this poll, recorded the own pass, and supervises with the SAME attempt number —
+stage 0 → 1 for `att = first`: the start state `CheckTokenPass(first)` of `pass_count_run` stands for
+one transmission of that telegram.  (For entries in the same poll as the end of a token hold —
+`UseToken` / `AwaitDataResponse` / `AwaitStatusResponse` via `passNow` — the transmitted bytes are not
+exposed by `UseTail`; not covered here.) -/
+theorem first_transmission_enters (s : Station) (apps : Apps) (now : Int) (phy : Bool) (rx : Bytes) (c' : Ctx)
+    (h : s.poll apps now phy rx = .ok c') (g : Bool) (att : Attempt) (hst : s.st = .passToken g att)
+    (att' : Attempt) (hc : c'.s.st = .checkTokenPass att') :
+    att' = att ∧ c'.tx = some (tokenTo s.p.address s.ring.ns) ∧
+    c'.s.ring = s.ring.witness s.p.address s.ring.ns := by
+  rcases passTok_poll s apps now phy rx c' h g att hst with ⟨h1, -, -⟩ | ⟨-, ⟨a, h1⟩, -⟩ | ⟨h1, h2, h3⟩
+  · rw [h1] at hc; cases hc
+  · rw [h1] at hc; cases hc
+  · rcases h2 with h2 | h2
+    · rw [h2] at hc; cases hc
+    · rw [h2] at hc; cases hc
+      exact ⟨rfl, h3, h1⟩
 
 end PV.C11
